@@ -409,6 +409,41 @@ func (k *Kernel) installFS() {
 		k.FS.mu.Unlock()
 		return os.Open(k.sandboxPath(p))
 	}
+	// the rest of the os file API lal (or a changed lal) may use: same sandbox, same operation log
+	sbx := func(kind, name string) string {
+		p := cleanPath(name)
+		k.FS.mu.Lock()
+		k.FS.logOp(FsOp{Kind: kind, Path: p})
+		k.FS.mu.Unlock()
+		return k.sandboxPath(p)
+	}
+	zzsim.OsOpenFile = func(name string, flag int, perm os.FileMode) (*os.File, error) {
+		kind := "osopen"
+		if flag&os.O_CREATE != 0 {
+			kind = "oscreate"
+		}
+		real := sbx(kind, name)
+		if flag&os.O_CREATE != 0 {
+			if err := os.MkdirAll(path.Dir(real), 0o755); err != nil {
+				return nil, err
+			}
+			k.FS.mu.Lock()
+			k.FS.osFiles = append(k.FS.osFiles, cleanPath(name))
+			k.FS.mu.Unlock()
+		}
+		return os.OpenFile(real, flag, perm)
+	}
+	zzsim.OsRemove = func(name string) error { return os.Remove(sbx("osremove", name)) }
+	zzsim.OsRemoveAll = func(name string) error { return os.RemoveAll(sbx("osremoveall", name)) }
+	zzsim.OsRename = func(a, b string) error { return os.Rename(sbx("osrename", a), sbx("osrename-to", b)) }
+	zzsim.OsWriteFile = func(name string, data []byte, perm os.FileMode) error {
+		real := sbx("oscreate", name)
+		_ = os.MkdirAll(path.Dir(real), 0o755)
+		return os.WriteFile(real, data, perm)
+	}
+	zzsim.OsReadFile = func(name string) ([]byte, error) { return os.ReadFile(sbx("osopen", name)) }
+	zzsim.OsStat = func(name string) (os.FileInfo, error) { return os.Stat(sbx("osstat", name)) }
+	zzsim.OsMkdir = func(name string, perm os.FileMode) error { return os.Mkdir(sbx("osmkdirall", name), perm) }
 	zzsim.OsMkdirAll = func(name string, perm os.FileMode) error {
 		p := cleanPath(name)
 		k.FS.mu.Lock()
